@@ -1,6 +1,695 @@
-import LcdbModel.Model.Lsm
-import LcdbModel.Model.DbIter
+/-
+  C14: the level structure stays well-formed.  Every step kind whose contract (`stepOk`) holds
+  preserves the invariant `Inv` (sorted runs and levels, well-formed files, recency along the
+  search order, sequence / file-number bounds); hence so does every run of such steps, starting
+  from the empty database.
+-/
+import LcdbModel.Lemmas.LsmStepsRel
 namespace Lcdb.C14
 open Lcdb
+
+theorem write_preserves_inv (c : Cmp) (st : DbState) (ops : List WOp) (h : Inv c st)
+    (hs : stepOk c st (.write ops)) : Inv c (applyStep c st (.write ops)) := by
+  obtain ⟨_, hk⟩ := hs
+  have hR := h.toRec
+  have hmemb : ∀ x ∈ st.mem, x.seq ≤ st.lastSeq ∧ x.kind ≤ 1 := fun x hx =>
+    ⟨h.seqBound x (mem_allEntries.mpr (.inl hx)), h.kinds x (mem_allEntries.mpr (.inl hx))⟩
+  have hnew : ∀ r : Run, (∀ y ∈ r, y.seq ≤ st.lastSeq) → NewerThan c st.mem r →
+      NewerThan c (applyOps c st.mem (st.lastSeq + 1) ops) r := by
+    intro r hb hn x hx y hy he
+    rcases mem_applyOps.mp hx with hx' | hx'
+    · exact hn x hx' y hy he
+    · have := (mem_opsEntries hx').1
+      have := hb y hy
+      omega
+  apply Inv.ofRel
+  · exact h.nlevels
+  · exact applyOps_sorted h.memSorted
+      (fun x hx => ⟨by have := (hmemb x hx).1; omega, (hmemb x hx).2⟩) hk
+  · exact h.immSorted
+  · exact h.filesOk
+  · exact h.levelsSorted
+  · constructor
+    · intro r hr
+      exact hnew r (fun y hy => h.seqBound y (mem_allEntries.mpr (.inr (.inl ⟨r, hr, hy⟩))))
+        (hR.memImm r hr)
+    · intro f hf
+      exact hnew f.run (fun y hy => h.seq_le_of_file hf hy) (hR.memFiles f hf)
+    · exact hR.immFiles
+    · exact hR.l0
+    · exact hR.levels
+  · intro e he
+    show e.seq ≤ st.lastSeq + ops.length
+    rcases mem_allEntries.mp he with he | he | he
+    · rcases mem_applyOps.mp he with he' | he'
+      · have := (hmemb e he').1; omega
+      · have := (mem_opsEntries he').2.1; omega
+    · have := h.seqBound e (mem_allEntries.mpr (.inr (.inl he))); omega
+    · have := h.seqBound e (mem_allEntries.mpr (.inr (.inr he))); omega
+  · intro e he
+    rcases mem_allEntries.mp he with he | he | he
+    · rcases mem_applyOps.mp he with he' | he'
+      · exact (hmemb e he').2
+      · obtain ⟨o, ho, hko⟩ := (mem_opsEntries he').2.2
+        rw [hko]; exact hk o ho
+    · exact h.kinds e (mem_allEntries.mpr (.inr (.inl he)))
+    · exact h.kinds e (mem_allEntries.mpr (.inr (.inr he)))
+  · exact ⟨h.numsRel.within, h.numsRel.across⟩
+  · exact h.numsBound
+  · intro s hs
+    have := h.snapsBound s hs
+    show s ≤ st.lastSeq + ops.length
+    omega
+
+theorem switchMem_preserves_inv (c : Cmp) (st : DbState) (h : Inv c st)
+    (hs : stepOk c st .switchMem) : Inv c (applyStep c st .switchMem) := by
+  have himm : st.imm = none := hs
+  have hR := h.toRec
+  apply Inv.ofRel
+  · exact h.nlevels
+  · exact List.Pairwise.nil
+  · intro r hr
+    have : st.mem = r := by simpa [applyStep] using hr
+    rw [← this]; exact h.memSorted
+  · exact h.filesOk
+  · exact h.levelsSorted
+  · constructor
+    · intro r _; exact newerThan_nil_left c r
+    · intro f _; exact newerThan_nil_left c _
+    · intro r hr f hf
+      have : st.mem = r := by simpa [applyStep] using hr
+      rw [← this]; exact hR.memFiles f hf
+    · exact hR.l0
+    · exact hR.levels
+  · intro e he
+    apply h.seqBound
+    rcases mem_allEntries.mp he with he | ⟨r, hr, he⟩ | he
+    · cases he
+    · have : st.mem = r := by simpa [applyStep] using hr
+      exact mem_allEntries.mpr (.inl (this ▸ he))
+    · exact mem_allEntries.mpr (.inr (.inr he))
+  · intro e he
+    apply h.kinds
+    rcases mem_allEntries.mp he with he | ⟨r, hr, he⟩ | he
+    · cases he
+    · have : st.mem = r := by simpa [applyStep] using hr
+      exact mem_allEntries.mpr (.inl (this ▸ he))
+    · exact mem_allEntries.mpr (.inr (.inr he))
+  · exact ⟨h.numsRel.within, h.numsRel.across⟩
+  · exact h.numsBound
+  · exact h.snapsBound
+
+theorem dropImm_preserves_inv (c : Cmp) (st : DbState) (h : Inv c st)
+    (_hs : stepOk c st .dropImm) : Inv c (applyStep c st .dropImm) := by
+  have hR := h.toRec
+  have hsub : ∀ e, e ∈ allEntries (applyStep c st .dropImm) → e ∈ allEntries st := by
+    intro e he
+    rcases mem_allEntries.mp he with he | ⟨r, hr, _⟩ | he
+    · exact mem_allEntries.mpr (.inl he)
+    · cases hr
+    · exact mem_allEntries.mpr (.inr (.inr he))
+  apply Inv.ofRel
+  · exact h.nlevels
+  · exact h.memSorted
+  · intro r hr; cases hr
+  · exact h.filesOk
+  · exact h.levelsSorted
+  · constructor
+    · intro r hr; cases hr
+    · exact hR.memFiles
+    · intro r hr; cases hr
+    · exact hR.l0
+    · exact hR.levels
+  · exact fun e he => h.seqBound e (hsub e he)
+  · exact fun e he => h.kinds e (hsub e he)
+  · exact ⟨h.numsRel.within, h.numsRel.across⟩
+  · exact h.numsBound
+  · exact h.snapsBound
+
+theorem snapshot_preserves_inv (c : Cmp) (st : DbState) (h : Inv c st)
+    (_hs : stepOk c st .snapshot) : Inv c (applyStep c st .snapshot) :=
+  { h with
+    snapsBound := by
+      intro s hs
+      have : s ∈ st.snaps ++ [st.lastSeq] := hs
+      rcases List.mem_append.mp this with hs' | hs'
+      · exact h.snapsBound s hs'
+      · simp at hs'; subst hs'; exact Nat.le_refl _ }
+
+theorem release_preserves_inv (c : Cmp) (st : DbState) (s : Nat) (h : Inv c st)
+    (_hs : stepOk c st (.release s)) : Inv c (applyStep c st (.release s)) :=
+  { h with
+    snapsBound := fun s' hs' => h.snapsBound s' (List.mem_of_mem_erase hs') }
+
+theorem bumpNextFile_preserves_inv (c : Cmp) (st : DbState) (n : Nat) (h : Inv c st)
+    (_hs : stepOk c st (.bumpNextFile n)) : Inv c (applyStep c st (.bumpNextFile n)) :=
+  { h with
+    numsBound := by
+      intro f hf
+      have := h.numsBound f hf
+      show f.num < max st.nextFile n
+      omega }
+
+/-- installing one new table `f` at level `l` (flush and recovery share this shape) -/
+def addFileState (c : Cmp) (st : DbState) (l : Nat) (f : FileMeta) (imm' : Option Run) (nf' : Nat) :
+    DbState :=
+  { setLevel st l (addFiles c l (st.level l) [f]) with imm := imm', nextFile := nf' }
+
+theorem level_addFileState (c : Cmp) (st : DbState) (l : Nat) (f : FileMeta) (imm' : Option Run)
+    (nf' : Nat) (hl : l < st.levels.length) (i : Nat) :
+    (addFileState c st l f imm' nf').level i =
+      if i = l then insertSorted c f (st.level l) else st.level i := by
+  refine (level_setLevel st l _ i).trans ?_
+  simp [hl, addFiles_singleton]
+
+theorem mem_level_addFileState (c : Cmp) (st : DbState) (l : Nat) (f : FileMeta) (imm' : Option Run)
+    (nf' : Nat) (hl : l < st.levels.length) (i : Nat) (g : FileMeta) :
+    g ∈ (addFileState c st l f imm' nf').level i ↔ (g = f ∧ i = l) ∨ g ∈ st.level i := by
+  rw [level_addFileState c st l f imm' nf' hl]
+  split
+  · rename_i h; subst h; simp [mem_insertSorted]
+  · rename_i h; simp [h]
+
+theorem mem_allFiles_addFileState (c : Cmp) (st : DbState) (l : Nat) (f : FileMeta) (imm' : Option Run)
+    (nf' : Nat) (hl : l < st.levels.length) (g : FileMeta) :
+    g ∈ allFiles (addFileState c st l f imm' nf') ↔ g = f ∨ g ∈ allFiles st := by
+  rw [mem_allFiles, mem_allFiles]
+  constructor
+  · rintro ⟨i, hi⟩
+    rcases (mem_level_addFileState c st l f imm' nf' hl i g).mp hi with ⟨h, _⟩ | h
+    · exact .inl h
+    · exact .inr ⟨i, h⟩
+  · rintro (h | ⟨i, hi⟩)
+    · exact ⟨l, (mem_level_addFileState c st l f imm' nf' hl l g).mpr (.inl ⟨h, rfl⟩)⟩
+    · exact ⟨i, (mem_level_addFileState c st l f imm' nf' hl i g).mpr (.inr hi)⟩
+
+theorem addFile_preserves_inv (c : Cmp) (st : DbState) (l : Nat) (f : FileMeta) (imm' : Option Run)
+    (nf' : Nat) (h : Inv c st) (hl : l < 7) (hf : FileOk c f)
+    (himm : ∀ r ∈ imm', r ∈ st.imm)
+    (hnf : st.nextFile ≤ nf') (hnf' : f.num < nf')
+    (hnum : ∀ g ∈ allFiles st, g.num ≠ f.num)
+    (hmem : NewerThan c st.mem f.run)
+    (himmf : ∀ r ∈ imm', NewerThan c r f.run)
+    (hup : ∀ i, i < l → ∀ a ∈ st.level i, NewerThan c a.run f.run)
+    (hdown : ∀ j, l < j → ∀ b ∈ st.level j, NewerThan c f.run b.run)
+    (h0 : l = 0 → ∀ b ∈ st.level 0,
+      (b.num > f.num → NewerThan c b.run f.run) ∧ (f.num > b.num → NewerThan c f.run b.run))
+    (hsorted : 1 ≤ l → LevelSorted c (insertSorted c f (st.level l)))
+    (hent : ∀ e ∈ f.run, e.seq ≤ st.lastSeq ∧ e.kind ≤ 1) :
+    Inv c (addFileState c st l f imm' nf') := by
+  have hR := h.toRec
+  have hN := h.numsRel
+  have hl' : l < st.levels.length := by rw [h.nlevels]; exact hl
+  have hml := mem_level_addFileState c st l f imm' nf' hl'
+  have hmf := mem_allFiles_addFileState c st l f imm' nf' hl'
+  have hentries : ∀ e, e ∈ allEntries (addFileState c st l f imm' nf') →
+      e ∈ f.run ∨ e ∈ allEntries st := by
+    intro e he
+    rcases mem_allEntries.mp he with he1 | ⟨r, hr, he2⟩ | ⟨g, hg, he3⟩
+    · exact .inr (mem_allEntries.mpr (.inl he1))
+    · exact .inr (mem_allEntries.mpr (.inr (.inl ⟨r, himm r hr, he2⟩)))
+    · rcases (hmf g).mp hg with rfl | hg'
+      · exact .inl he3
+      · exact .inr (mem_allEntries.mpr (.inr (.inr ⟨g, hg', he3⟩)))
+  apply Inv.ofRel
+  · exact (levels_length_setLevel st l _).trans h.nlevels
+  · exact h.memSorted
+  · exact fun r hr => h.immSorted r (himm r hr)
+  · intro g hg
+    rcases (hmf g).mp hg with rfl | hg'
+    · exact hf
+    · exact h.filesOk g hg'
+  · intro i hi
+    rw [level_addFileState c st l f imm' nf' hl']
+    split
+    · rename_i e; subst e; exact hsorted hi
+    · exact h.levelsSorted i hi
+  · constructor
+    · exact fun r hr => hR.memImm r (himm r hr)
+    · intro g hg
+      rcases (hmf g).mp hg with rfl | hg'
+      · exact hmem
+      · exact hR.memFiles g hg'
+    · intro r hr g hg
+      rcases (hmf g).mp hg with rfl | hg'
+      · exact himmf r hr
+      · exact hR.immFiles r (himm r hr) g hg'
+    · intro a ha b hb hab
+      rcases (hml 0 a).mp ha with ⟨rfl, hl0⟩ | ha' <;> rcases (hml 0 b).mp hb with ⟨rfl, hl0'⟩ | hb'
+      · omega
+      · exact (h0 hl0.symm b hb').2 hab
+      · exact (h0 hl0'.symm a ha').1 hab
+      · exact hR.l0 a ha' b hb' hab
+    · intro i j hij a ha b hb
+      rcases (hml i a).mp ha with ⟨rfl, hi⟩ | ha' <;> rcases (hml j b).mp hb with ⟨rfl, hj⟩ | hb'
+      · omega
+      · subst hi; exact hdown j hij b hb'
+      · subst hj; exact hup i hij a ha'
+      · exact hR.levels i j hij a ha' b hb'
+  · intro e he
+    rcases hentries e he with he' | he'
+    · exact (hent e he').1
+    · exact h.seqBound e he'
+  · intro e he
+    rcases hentries e he with he' | he'
+    · exact (hent e he').2
+    · exact h.kinds e he'
+  · constructor
+    · intro i
+      rw [level_addFileState c st l f imm' nf' hl']
+      split
+      · rename_i e; subst e
+        rw [List.Perm.pairwise_iff (fun h => Ne.symm h) (insertSorted_perm c f (st.level i)),
+          List.pairwise_cons]
+        exact ⟨fun g hg => Ne.symm (hnum g (mem_allFiles.mpr ⟨i, hg⟩)), hN.within i⟩
+      · exact hN.within i
+    · intro i j hij a ha b hb
+      rcases (hml i a).mp ha with ⟨rfl, hi⟩ | ha' <;> rcases (hml j b).mp hb with ⟨rfl, hj⟩ | hb'
+      · omega
+      · exact Ne.symm (hnum b (mem_allFiles.mpr ⟨j, hb'⟩))
+      · exact hnum a (mem_allFiles.mpr ⟨i, ha'⟩)
+      · exact hN.across i j hij a ha' b hb'
+  · intro g hg
+    show g.num < nf'
+    rcases (hmf g).mp hg with rfl | hg'
+    · exact hnf'
+    · exact Nat.lt_of_lt_of_le (h.numsBound g hg') hnf
+  · exact h.snapsBound
+
+theorem flush_preserves_inv (c : Cmp) (st : DbState) (level : Nat) (f : FileMeta) (h : Inv c st)
+    (hs : stepOk c st (.flush level f)) : Inv c (applyStep c st (.flush level f)) := by
+  obtain ⟨himm, hf, hl, hnf, hno⟩ := hs
+  have hR := h.toRec
+  have hmemimm : f.run ∈ st.imm := Option.mem_def.mpr himm
+  show Inv c (addFileState c st level f none (max st.nextFile (f.num + 1)))
+  apply addFile_preserves_inv c st level f none _ h hl hf
+  · intro r hr; cases hr
+  · exact Nat.le_max_left _ _
+  · have := Nat.le_max_right st.nextFile (f.num + 1); omega
+  · intro g hg
+    have := h.numsBound g hg
+    omega
+  · exact hR.memImm f.run hmemimm
+  · intro r hr; cases hr
+  · intro i hi a ha x hx y hy he
+    have hne : level ≠ 0 := by omega
+    have hov := hno i (by omega) hne a ha
+    have := no_shared_key_of_not_overlap hf (h.filesOk a (mem_allFiles.mpr ⟨i, ha⟩)) hov y hy x hx
+    rw [cmp_swap c x.ukey y.ukey, he] at this
+    exact absurd rfl this
+  · intro j _ b hb
+    exact hR.immFiles f.run hmemimm b (mem_allFiles.mpr ⟨j, hb⟩)
+  · intro _ b hb
+    constructor
+    · intro hgt
+      have := h.numsBound b (mem_allFiles.mpr ⟨0, hb⟩)
+      omega
+    · intro _
+      exact hR.immFiles f.run hmemimm b (mem_allFiles.mpr ⟨0, hb⟩)
+  · intro h1
+    apply insertSorted_levelSorted (h.levelsSorted level h1) hf
+    · exact fun g hg => h.filesOk g (mem_allFiles.mpr ⟨level, hg⟩)
+    · exact fun g hg => hno level (Nat.le_refl _) (by omega) g hg
+  · intro e he
+    have hmem : e ∈ allEntries st := mem_allEntries.mpr (.inr (.inl ⟨f.run, hmemimm, he⟩))
+    exact ⟨h.seqBound e hmem, h.kinds e hmem⟩
+
+theorem addL0_preserves_inv (c : Cmp) (st : DbState) (f : FileMeta) (h : Inv c st)
+    (hs : stepOk c st (.addL0 f)) : Inv c (applyStep c st (.addL0 f)) := by
+  obtain ⟨hf, hmem, himm, hnums, hsrc, hent, _, hdist⟩ := hs
+  have hall : ∀ g ∈ allFiles st, NewerThan c f.run g.run := by
+    intro g hg
+    obtain ⟨r, hr, hsub⟩ := sourceRuns_cover st hg
+    exact (hsrc r hr).mono (fun x hx => hx) hsub
+  show Inv c (addFileState c st 0 f st.imm (max st.nextFile (f.num + 1)))
+  apply addFile_preserves_inv c st 0 f st.imm _ h (by omega) hf
+  · exact fun r hr => hr
+  · exact Nat.le_max_left _ _
+  · have := Nat.le_max_right st.nextFile (f.num + 1); omega
+  · exact hdist
+  · rw [hmem]; exact newerThan_nil_left c _
+  · intro r hr; rw [himm] at hr; cases hr
+  · intro i hi; omega
+  · intro j _ b hb
+    exact hall b (mem_allFiles.mpr ⟨j, hb⟩)
+  · intro _ b hb
+    constructor
+    · intro hgt
+      have := hnums b hb
+      omega
+    · intro _
+      exact hall b (mem_allFiles.mpr ⟨0, hb⟩)
+  · intro h1; omega
+  · exact hent
+
+/-! ### compaction -/
+
+theorem level_compact (c : Cmp) (st : DbState) (level : Nat) (in0 in1 : List Nat)
+    (outs : List FileMeta) (hl : level + 1 < st.levels.length) (i : Nat) :
+    (applyStep c st (.compact level in0 in1 outs)).level i =
+      if i = level + 1 then addFiles c (level + 1) (removeNums (st.level (level + 1)) in1) outs
+      else if i = level then removeNums (st.level level) in0 else st.level i := by
+  refine (level_setLevel (setLevel st level (removeNums (st.level level) in0)) (level + 1) _ i).trans ?_
+  rw [levels_length_setLevel, level_setLevel]
+  have hl2 : level < st.levels.length := by omega
+  by_cases h1 : i = level + 1
+  · simp [h1, hl]
+  · by_cases h2 : i = level
+    · simp [h2, hl2]
+    · simp [h1, h2]
+
+/-- where the files of the state after a compaction come from -/
+theorem mem_level_compact (c : Cmp) (st : DbState) (level : Nat) (in0 in1 : List Nat)
+    (outs : List FileMeta) (hl : level + 1 < st.levels.length) (i : Nat) (g : FileMeta)
+    (hg : g ∈ (applyStep c st (.compact level in0 in1 outs)).level i) :
+    (g ∈ st.level i ∧ (i = level → g.num ∉ in0) ∧ (i = level + 1 → g.num ∉ in1)) ∨
+      (g ∈ outs ∧ i = level + 1) := by
+  rw [level_compact c st level in0 in1 outs hl] at hg
+  split at hg
+  · rename_i h1
+    subst h1
+    rcases mem_addFiles.mp hg with hg' | hg'
+    · have := mem_removeNums.mp hg'
+      exact .inl ⟨this.1, by omega, fun _ => this.2⟩
+    · exact .inr ⟨hg', rfl⟩
+  · rename_i h1
+    split at hg
+    · rename_i h2
+      subst h2
+      have := mem_removeNums.mp hg
+      exact .inl ⟨this.1, fun _ => this.2, fun h => absurd h h1⟩
+    · rename_i h2
+      exact .inl ⟨hg, fun h => absurd h h2, fun h => absurd h h1⟩
+
+theorem compact_preserves_inv (c : Cmp) (st : DbState) (level : Nat) (in0 in1 : List Nat)
+    (outs : List FileMeta) (h : Inv c st) (hs : stepOk c st (.compact level in0 in1 outs)) :
+    Inv c (applyStep c st (.compact level in0 in1 outs)) := by
+  obtain ⟨hl, _, _, _, hstay, _, houtsOk, hsorted, hnums, houtsDistinct, hsub, _, _⟩ := hs
+  have hR := h.toRec
+  have hN := h.numsRel
+  have hl' : level + 1 < st.levels.length := by rw [h.nlevels]; exact hl
+  have hml := mem_level_compact c st level in0 in1 outs hl'
+  -- every entry of an output file lives in an input file
+  have hins : ∀ f ∈ outs, ∀ y ∈ f.run, ∃ g,
+      ((g ∈ st.level level ∧ g.num ∈ in0) ∨ (g ∈ st.level (level + 1) ∧ g.num ∈ in1)) ∧ y ∈ g.run := by
+    intro f hf y hy
+    have := hsub y (List.mem_flatMap.mpr ⟨f, hf, hy⟩)
+    obtain ⟨g, hg, hyg⟩ := List.mem_flatMap.mp this
+    rcases List.mem_append.mp hg with hg' | hg'
+    · exact ⟨g, .inl (mem_pickNums.mp hg'), hyg⟩
+    · exact ⟨g, .inr (mem_pickNums.mp hg'), hyg⟩
+  have hinsFile : ∀ f ∈ outs, ∀ y ∈ f.run, ∃ g ∈ allFiles st, y ∈ g.run := by
+    intro f hf y hy
+    obtain ⟨g, hg, hyg⟩ := hins f hf y hy
+    rcases hg with hg | hg
+    · exact ⟨g, mem_allFiles.mpr ⟨_, hg.1⟩, hyg⟩
+    · exact ⟨g, mem_allFiles.mpr ⟨_, hg.1⟩, hyg⟩
+  have hfiles : ∀ g, g ∈ allFiles (applyStep c st (.compact level in0 in1 outs)) →
+      g ∈ allFiles st ∨ g ∈ outs := by
+    intro g hg
+    obtain ⟨i, hi⟩ := mem_allFiles.mp hg
+    rcases hml i g hi with hi' | hi'
+    · exact .inl (mem_allFiles.mpr ⟨i, hi'.1⟩)
+    · exact .inr hi'.1
+  have hentries : ∀ e, e ∈ allEntries (applyStep c st (.compact level in0 in1 outs)) →
+      e ∈ allEntries st := by
+    intro e he
+    rcases mem_allEntries.mp he with he1 | he2 | ⟨g, hg, he3⟩
+    · exact mem_allEntries.mpr (.inl he1)
+    · exact mem_allEntries.mpr (.inr (.inl he2))
+    · rcases hfiles g hg with hg' | hg'
+      · exact mem_allEntries.mpr (.inr (.inr ⟨g, hg', he3⟩))
+      · exact mem_allEntries.mpr (.inr (.inr (hinsFile g hg' e he3)))
+  -- a source that was newer than all files is newer than the outputs
+  have hnewer : ∀ r : Run, (∀ g ∈ allFiles st, NewerThan c r g.run) →
+      ∀ g ∈ allFiles (applyStep c st (.compact level in0 in1 outs)), NewerThan c r g.run := by
+    intro r hr g hg
+    rcases hfiles g hg with hg' | hg'
+    · exact hr g hg'
+    · intro x hx y hy he
+      obtain ⟨g', hg'', hy'⟩ := hinsFile g hg' y hy
+      exact hr g' hg'' x hx y hy' he
+  apply Inv.ofRel
+  · exact (levels_length_setLevel _ _ _).trans ((levels_length_setLevel _ _ _).trans h.nlevels)
+  · exact h.memSorted
+  · exact h.immSorted
+  · intro g hg
+    rcases hfiles g hg with hg' | hg'
+    · exact h.filesOk g hg'
+    · exact houtsOk g hg'
+  · intro i hi
+    rw [level_compact c st level in0 in1 outs hl']
+    split
+    · exact hsorted
+    · split
+      · rename_i h2; subst h2
+        exact List.Pairwise.filter _ (h.levelsSorted i hi)
+      · exact h.levelsSorted i hi
+  · constructor
+    · exact hR.memImm
+    · exact hnewer st.mem hR.memFiles
+    · exact fun r hr => hnewer r (hR.immFiles r hr)
+    · intro a ha b hb hab
+      rcases hml 0 a ha with ha' | ha'
+      · rcases hml 0 b hb with hb' | hb'
+        · exact hR.l0 a ha'.1 b hb'.1 hab
+        · omega
+      · omega
+    · intro i j hij a ha b hb
+      rcases hml i a ha with ha' | ha' <;> rcases hml j b hb with hb' | hb'
+      · exact hR.levels i j hij a ha'.1 b hb'.1
+      · -- `b` is an output: its entries come from inputs at `level` or `level + 1`
+        obtain ⟨hbo, rfl⟩ := hb'
+        intro x hx y hy he
+        obtain ⟨g, hg, hyg⟩ := hins b hbo y hy
+        rcases hg with hg | hg
+        · by_cases hil : i = level
+          · subst hil
+            exact hstay a (mem_removeNums.mpr ⟨ha'.1, ha'.2.1 rfl⟩) g (mem_pickNums.mpr hg) x hx y hyg he
+          · exact hR.levels i level (by omega) a ha'.1 g hg.1 x hx y hyg he
+        · exact hR.levels i (level + 1) hij a ha'.1 g hg.1 x hx y hyg he
+      · -- `a` is an output, `b` lies strictly deeper than both input levels
+        obtain ⟨hao, rfl⟩ := ha'
+        intro x hx y hy he
+        obtain ⟨g, hg, hxg⟩ := hins a hao x hx
+        rcases hg with hg | hg
+        · exact hR.levels level j (by omega) g hg.1 b hb'.1 x hxg y hy he
+        · exact hR.levels (level + 1) j hij g hg.1 b hb'.1 x hxg y hy he
+      · omega
+  · exact fun e he => h.seqBound e (hentries e he)
+  · exact fun e he => h.kinds e (hentries e he)
+  · constructor
+    · intro i
+      rw [level_compact c st level in0 in1 outs hl']
+      split
+      · rw [List.Perm.pairwise_iff (fun h => Ne.symm h) (addFiles_perm c _ _ outs),
+          List.pairwise_append]
+        refine ⟨List.Pairwise.filter _ (hN.within _), houtsDistinct, ?_⟩
+        intro g hg f hf heq
+        have hg1 := (mem_removeNums.mp hg).1
+        have := (hnums f hf g (mem_allFiles.mpr ⟨_, hg1⟩) heq).1
+        have := hN.level_unique (mem_pickNums.mp this).1 hg1
+        omega
+      · split
+        · rename_i h2; subst h2
+          exact List.Pairwise.filter _ (hN.within _)
+        · exact hN.within i
+    · intro i j hij a ha b hb
+      rcases hml i a ha with ha' | ha' <;> rcases hml j b hb with hb' | hb'
+      · exact hN.across i j hij a ha'.1 b hb'.1
+      · obtain ⟨hbo, rfl⟩ := hb'
+        intro heq
+        have hp := mem_pickNums.mp (hnums b hbo a (mem_allFiles.mpr ⟨i, ha'.1⟩) heq).1
+        have := hN.level_unique hp.1 ha'.1
+        subst this
+        exact ha'.2.1 rfl hp.2
+      · obtain ⟨hao, rfl⟩ := ha'
+        intro heq
+        have hp := mem_pickNums.mp (hnums a hao b (mem_allFiles.mpr ⟨j, hb'.1⟩) heq.symm).1
+        have := hN.level_unique hp.1 hb'.1
+        omega
+      · omega
+  · intro g hg
+    show g.num < outs.foldl (fun m f => max m (f.num + 1)) st.nextFile
+    rcases hfiles g hg with hg' | hg'
+    · exact Nat.lt_of_lt_of_le (h.numsBound g hg') (foldl_max_ge outs _)
+    · exact foldl_max_gt outs _ g hg'
+  · exact h.snapsBound
+
+/-! ### all steps, runs, the empty database -/
+
+theorem step_preserves_inv (c : Cmp) (st : DbState) (s : Step) (h : Inv c st) (hs : stepOk c st s) :
+    Inv c (applyStep c st s) := by
+  cases s with
+  | write ops => exact write_preserves_inv c st ops h hs
+  | switchMem => exact switchMem_preserves_inv c st h hs
+  | flush level f => exact flush_preserves_inv c st level f h hs
+  | dropImm => exact dropImm_preserves_inv c st h hs
+  | addL0 f => exact addL0_preserves_inv c st f h hs
+  | compact level in0 in1 outs => exact compact_preserves_inv c st level in0 in1 outs h hs
+  | snapshot => exact snapshot_preserves_inv c st h hs
+  | release s => exact release_preserves_inv c st s h hs
+  | bumpNextFile n => exact bumpNextFile_preserves_inv c st n h hs
+
+theorem steps_preserve_inv (c : Cmp) (st : DbState) (steps : List Step) (h : Inv c st)
+    (hs : StepsOk c st steps) : Inv c (runSteps c st steps) := by
+  induction steps generalizing st with
+  | nil => exact h
+  | cons s ss ih => exact ih _ (step_preserves_inv c st s h hs.1) hs.2
+
+theorem initial_inv (c : Cmp) : Inv c emptyState := by
+  have hlev : ∀ l, emptyState.level l = [] := by
+    intro l
+    simp only [DbState.level, emptyState, List.getD_eq_getElem?_getD, List.getElem?_replicate]
+    split <;> rfl
+  have hfiles : ∀ f, f ∉ allFiles emptyState := by
+    intro f hf
+    obtain ⟨l, hl⟩ := mem_allFiles.mp hf
+    rw [hlev] at hl
+    cases hl
+  have hentries : ∀ e, e ∉ allEntries emptyState := by
+    intro e he
+    rcases mem_allEntries.mp he with he | ⟨r, hr, _⟩ | ⟨f, hf, _⟩
+    · cases he
+    · cases hr
+    · exact hfiles f hf
+  apply Inv.ofRel
+  · rfl
+  · exact List.Pairwise.nil
+  · intro r hr; cases hr
+  · exact fun f hf => absurd hf (hfiles f)
+  · intro l _; rw [hlev]; exact List.Pairwise.nil
+  · constructor
+    · intro r hr; cases hr
+    · exact fun f hf => absurd hf (hfiles f)
+    · intro r hr; cases hr
+    · intro a ha; rw [hlev] at ha; cases ha
+    · intro i j _ a ha; rw [hlev] at ha; cases ha
+  · exact fun e he => absurd he (hentries e)
+  · exact fun e he => absurd he (hentries e)
+  · constructor
+    · intro l; rw [hlev]; exact List.Pairwise.nil
+    · intro i j _ a ha; rw [hlev] at ha; cases ha
+  · exact fun f hf => absurd hf (hfiles f)
+  · intro s hs; cases hs
+
+/-! ### non-vacuity: concrete states and steps satisfying the hypotheses -/
+
+namespace Ex
+
+def k1 : Bytes := [1]
+def k2 : Bytes := [2]
+def k3 : Bytes := [3]
+def k5 : Bytes := [5]
+
+/-- a table file with consistent metadata for a non-empty run -/
+def mkFile (num : Nat) (run : Run) : FileMeta :=
+  match run.head?, run.getLast? with
+  | some a, some b => ⟨num, run.length, a.ukey, a.packed, b.ukey, b.packed, run⟩
+  | _, _ => ⟨num, 0, [], 0, [], 0, run⟩
+
+def g2 : FileMeta := mkFile 2 [⟨k1, 1, 1, "old"⟩, ⟨k2, 2, 1, "old2"⟩]
+def g3 : FileMeta := mkFile 3 [⟨k1, 3, 1, "z"⟩]
+def g4 : FileMeta := mkFile 4 [⟨k1, 5, 0, ""⟩, ⟨k2, 6, 1, "y"⟩]
+def g5 : FileMeta := mkFile 5 [⟨k1, 7, 1, "x"⟩]
+def g6 : FileMeta := mkFile 6 [⟨k3, 4, 1, "w"⟩]
+
+/-- memtable, immutable memtable, two overlapping level-0 files, two level-1 files, one level-2
+    file, one live snapshot -/
+def stA : DbState :=
+  { mem := [⟨k1, 10, 1, "m"⟩], imm := some [⟨k2, 9, 0, ""⟩, ⟨k3, 8, 1, "i"⟩],
+    levels := [[g5, g4], [g3, g6], [g2], [], [], [], []], lastSeq := 10, snaps := [6], nextFile := 7 }
+
+/-- the same with an immutable memtable that overlaps nothing (flush to a deeper level) -/
+def stB : DbState := { stA with imm := some [⟨k5, 9, 1, "q"⟩] }
+/-- no immutable memtable -/
+def stC : DbState := { stA with imm := none }
+/-- an empty immutable memtable -/
+def stD : DbState := { stA with imm := some [] }
+/-- during recovery: nothing in memory -/
+def stG : DbState := { stA with mem := [], imm := none, snaps := [] }
+
+def g7 : FileMeta := mkFile 7 [⟨k2, 9, 0, ""⟩, ⟨k3, 8, 1, "i"⟩]
+def g7b : FileMeta := mkFile 7 [⟨k5, 9, 1, "q"⟩]
+/-- level 0 -> 1 output: the shadowed `(k1, 3)` is dropped, the tombstone `(k1, 5)` must stay
+    (level 2 still holds `k1`, and snapshot 6 sees the tombstone) -/
+def g8 : FileMeta := mkFile 8 [⟨k1, 7, 1, "x"⟩, ⟨k1, 5, 0, ""⟩, ⟨k2, 6, 1, "y"⟩]
+/-- level 1 -> 2 output: `(k1, 1)` is shadowed at every protected sequence -/
+def g9 : FileMeta := mkFile 9 [⟨k1, 3, 1, "z"⟩, ⟨k2, 2, 1, "old2"⟩]
+/-- a replayed log: newer than everything on disk -/
+def g10 : FileMeta := mkFile 10 [⟨k1, 9, 1, "r"⟩, ⟨k3, 10, 0, ""⟩]
+
+theorem invA : Inv .bytewise stA := inv_of_invRel (by decide)
+theorem invB : Inv .bytewise stB := inv_of_invRel (by decide)
+theorem invC : Inv .bytewise stC := inv_of_invRel (by decide)
+theorem invD : Inv .bytewise stD := inv_of_invRel (by decide)
+theorem invG : Inv .bytewise stG := inv_of_invRel (by decide)
+
+def writeA : Step := .write [⟨k2, 1, "n"⟩, ⟨k1, 0, ""⟩]
+def compact01 : Step := .compact 0 [4, 5] [3] [g8]
+def compact12 : Step := .compact 1 [3] [2] [g9]
+/-- trivial move of `g6` from level 1 to level 2 -/
+def moveA : Step := .compact 1 [6] [] [g6]
+
+theorem okWrite : stepOk .bytewise stA writeA := by decide
+theorem okSwitch : stepOk .bytewise stC .switchMem := by decide
+theorem okFlush0 : stepOk .bytewise stA (.flush 0 g7) := by decide
+theorem okFlush1 : stepOk .bytewise stB (.flush 1 g7b) := by decide
+theorem okDrop : stepOk .bytewise stD .dropImm := by decide
+theorem okCompact01 : stepOk .bytewise stA compact01 := by decide
+theorem okCompact12 : stepOk .bytewise stA compact12 := by decide
+theorem okMove : stepOk .bytewise stA moveA := by decide
+theorem okRelease : stepOk .bytewise stA (.release 6) := by decide
+theorem okAddL0 : stepOk .bytewise stG (.addL0 g10) :=
+  ⟨by decide, by decide, by decide, by decide,
+    newerThan_sourceRuns_of_files (by decide) (by decide) (by decide),
+    by decide, by decide, by decide⟩
+
+example : Inv .bytewise (applyStep .bytewise stA writeA) := write_preserves_inv _ _ _ invA okWrite
+example : Inv .bytewise (applyStep .bytewise stC .switchMem) := switchMem_preserves_inv _ _ invC okSwitch
+example : Inv .bytewise (applyStep .bytewise stA (.flush 0 g7)) := flush_preserves_inv _ _ _ _ invA okFlush0
+example : Inv .bytewise (applyStep .bytewise stB (.flush 1 g7b)) := flush_preserves_inv _ _ _ _ invB okFlush1
+example : Inv .bytewise (applyStep .bytewise stD .dropImm) := dropImm_preserves_inv _ _ invD okDrop
+example : Inv .bytewise (applyStep .bytewise stG (.addL0 g10)) := addL0_preserves_inv _ _ _ invG okAddL0
+example : Inv .bytewise (applyStep .bytewise stA compact01) :=
+  compact_preserves_inv _ _ _ _ _ _ invA okCompact01
+example : Inv .bytewise (applyStep .bytewise stA compact12) :=
+  compact_preserves_inv _ _ _ _ _ _ invA okCompact12
+example : Inv .bytewise (applyStep .bytewise stA moveA) := compact_preserves_inv _ _ _ _ _ _ invA okMove
+example : Inv .bytewise (applyStep .bytewise stA .snapshot) := snapshot_preserves_inv _ _ invA trivial
+example : Inv .bytewise (applyStep .bytewise stA (.release 6)) := release_preserves_inv _ _ _ invA okRelease
+example : Inv .bytewise (applyStep .bytewise stA (.bumpNextFile 20)) :=
+  bumpNextFile_preserves_inv _ _ _ invA trivial
+
+/-- the contracts are not vacuous either: they reject wrong steps -/
+example : ¬ stepOk .bytewise stA (.flush 1 g7) := by decide         -- overlaps level 0 / level 1
+example : ¬ stepOk .bytewise stA (.compact 0 [4] [3] [g8]) := by decide  -- g8 holds an entry that is no input
+example : ¬ stepOk .bytewise stA (.compact 0 [4, 5] [3] [mkFile 8 [⟨k1, 7, 1, "x"⟩, ⟨k2, 6, 1, "y"⟩]]) := by
+  decide                                                            -- drops a tombstone level 2 needs
+
+/-- a whole life from the empty database: writes, a snapshot, two flushes, a compaction that has to
+    keep everything the snapshot sees, the release, and a compaction that drops the tombstone -/
+def h1 : FileMeta := mkFile 1 [⟨k1, 3, 0, ""⟩, ⟨k1, 1, 1, "a"⟩, ⟨k2, 2, 1, "b"⟩]
+def h2 : FileMeta := mkFile 2 [⟨k2, 4, 1, "c"⟩]
+def h3 : FileMeta := mkFile 3 [⟨k1, 3, 0, ""⟩, ⟨k1, 1, 1, "a"⟩, ⟨k2, 4, 1, "c"⟩, ⟨k2, 2, 1, "b"⟩]
+def h4 : FileMeta := mkFile 4 [⟨k2, 4, 1, "c"⟩]
+
+def prefix1 : List Step := [.write [⟨k1, 1, "a"⟩, ⟨k2, 1, "b"⟩], .snapshot]
+def middle1 : List Step :=
+  [.write [⟨k1, 0, ""⟩], .switchMem, .flush 0 h1, .write [⟨k2, 1, "c"⟩], .switchMem, .flush 0 h2,
+    .compact 0 [1, 2] [] [h3]]
+def suffix1 : List Step := [.release 2, .compact 1 [3] [] [h4]]
+def run1 : List Step := prefix1 ++ middle1 ++ suffix1
+
+theorem okRun1 : StepsOk .bytewise emptyState run1 := by decide
+
+example : Inv .bytewise (runSteps .bytewise emptyState run1) :=
+  steps_preserve_inv _ _ _ (initial_inv _) okRun1
+
+/-- before the release the compaction may not drop the tombstone's shadow `(k1, 1)` -/
+example : ¬ StepsOk .bytewise emptyState (prefix1 ++ [.write [⟨k1, 0, ""⟩], .switchMem, .flush 0 h1,
+    .write [⟨k2, 1, "c"⟩], .switchMem, .flush 0 h2, .compact 0 [1, 2] [] [h4]]) := by decide
+
+end Ex
 
 end Lcdb.C14
